@@ -200,7 +200,6 @@ func VH_C09_frame(kind, op int) {
 	vreach("end")
 }
 
-
 // vhAncestors: reference closure of location `start` over the parent index lists.
 func vhAncestors(parents [][]int, start int) (map[int]bool, bool) {
 	seen := map[int]bool{}
@@ -291,4 +290,56 @@ func vhC09Dispatch(kind, n0, n1, at int, withCond bool) {
 func (f *vhForest) setParentsNamed(i int, names []string) {
 	_, err := f.locs[i].SetParents(f.ctx, names)
 	vassume(err == nil)
+}
+
+// VH_C09_reparent: a location that has already used its parent list (an inherited search)
+// gets a different parent set by one of the routes that change the stored "parents"
+// property — SetParents, Clear, the property API, removing the property fact; the next
+// inherited search follows the new set at once. route: 0 SetParents to another parent,
+// 1 Clear (no parents left), 2 SetProp to another parent, 3 RemProp (no parents left).
+func VH_C09_reparent(kind, route int) {
+	f := vhNewForest(kind)
+	for i, loc := range f.locs[:3] {
+		_, err := loc.AddFact(f.ctx, "f", Map{"who": vhLocNames[i]})
+		vassume(err == nil)
+	}
+	f.setParentsNamed(0, []string{"l1"})
+	sees := func() map[string]bool {
+		srs, err := f.locs[0].SearchFacts(f.ctx, Map{"who": "?w"}, true)
+		vassert(err == nil, "inherited-search-no-error")
+		got := map[string]bool{}
+		if srs != nil {
+			for _, sr := range srs.Found {
+				for _, bs := range sr.Bindingss {
+					if w, ok := bs["?w"].(string); ok {
+						got[w] = true
+					}
+				}
+			}
+		}
+		return got
+	}
+	before := sees()
+	vassert(before["l0"] && before["l1"] && !before["l2"], "inherited-search-is-union-over-transitive-parents")
+	wantOwn, wantParent := true, ""
+	switch route {
+	case 0:
+		_, err := f.locs[0].SetParents(f.ctx, []string{"l2"})
+		vassume(err == nil)
+		wantParent = "l2"
+	case 1:
+		vassume(f.locs[0].Clear(f.ctx) == nil)
+		wantOwn = false
+	case 2:
+		vassume(f.locs[0].SetProp(f.ctx, "", "parents", []string{"l2"}) == nil)
+		wantParent = "l2"
+	case 3:
+		vassume(f.locs[0].RemProp(f.ctx, "", "parents") == nil)
+	}
+	after := sees()
+	vassert(after["l0"] == wantOwn, "own-facts-as-left-by-the-operation")
+	for _, n := range []string{"l1", "l2"} {
+		vassert(after[n] == (n == wantParent), "parent-change-takes-effect-immediately")
+	}
+	vreach("end")
 }
